@@ -1375,6 +1375,19 @@ impl Error {
     /// - The live events adapter when the underlying parser fails.
     #[cold]
     #[inline(never)]
+    /// True for errors raised by the YAML scanner / parser itself (malformed text), as opposed to
+    /// budget breaches, I/O failures or errors of the deserializer. Only these count as
+    /// "trailing garbage" after a document end marker.
+    pub(crate) fn is_syntax_error(&self) -> bool {
+        matches!(
+            self.without_snippet(),
+            Error::ExternalMessage {
+                source: ExternalMessageSource::SaphyrParser,
+                ..
+            } | Error::UnknownAnchor { .. }
+        )
+    }
+
     pub(crate) fn from_scan_error(err: ScanError) -> Self {
         use crate::location::SpanIndex;
         let mark = err.marker();
